@@ -849,7 +849,9 @@ def check_public_faults(ctx: Ctx, res: Result):
     # designed workloads first (commit_common.designed_workloads): whether a write fails while a SIBLING write of the same
     # rank is in flight in the background phase depends on the knobs (an I/O concurrency cap of 1, or a tight budget,
     # serialises the writes), so the sweep does not leave that to the random draw
-    designed = [w for w in cc.designed_workloads() if w["W"] >= 2][:(6 if ctx.thorough else 3)]
+    designed = [w for w in cc.designed_workloads() if w["W"] >= 2]
+    if not ctx.thorough:
+        designed = designed[:3] + [w for w in designed[3:] if w.get("conc_after")]
     for i in range(len(designed) + ctx.n(4, 20)):
         wl = designed[i] if i < len(designed) else cc.make_workload(rng)
         if wl["W"] < 2:
@@ -869,7 +871,7 @@ def check_public_faults(ctx: Ctx, res: Result):
                 root = ctx.scratch("c13f")
                 path = os.path.join(root, "snap")
                 seed = rng.randrange(1 << 30)
-                how = "fail-empty" if seed % 3 == 0 else "fail"
+                how = "fail-late" if wl.get("conc_after") else ("fail-empty", "fail-late", "fail")[seed % 3]
                 world = cc.run_take(wl, path, "async", sched, seed, write_policy=lambda r, p, n, fr=fr, fn_=fn_, how=how: how if (r == fr and n == fn_) else None)
                 replay = {"public_fault": True, "workload": wl, "sched": sched, "seed": seed, "fail_rank": fr, "fail_nth": fn_, "how": how}
                 ws = cc.writes_of(world)
